@@ -138,6 +138,7 @@ class Cluster(object):
         self.held = []  # [(conn, bytes, info)]
         self.requests = []  # every parsed request: dict(step, time, node, conn, req, seq)
         self.grammar_errors = []
+        self.field_errors = []  # header fields that differ from what the client was configured with (C04)
         self.acks = []  # produce ledger
         self.commit_log = []  # offset commit ledger
         self.metadata_replies = []  # (step, time, conn cid, end position, brokers, topics)
@@ -260,6 +261,9 @@ class Cluster(object):
             self.grammar_errors.append({"step": w.step_no, "node": node, "error": str(e), "frame": frame[:64]})
             conn.drop()
             return
+        exp = getattr(self, "expect_client_id", None)
+        if exp is not None and req["client_id"] != exp and len(self.field_errors) < 5:
+            self.field_errors.append("%s request header carries client id %r, the client was configured with %r" % (req["api"], req["client_id"], exp))
         self._seq += 1
         rec = {"seq": self._seq, "step": w.step_no, "time": w.now, "node": node, "conn": conn, "req": req}
         self.requests.append(rec)
